@@ -115,8 +115,12 @@ Print Assumptions css_token_sequences.
    (plain bytes, escapes each followed inside the token by a byte it tolerates, backslash-line-break continuations)
    and then the same quote, or nothing, or a lone backslash (the last two only at the end of the input)
    (str_shape); BadString: a quote, a string body and a line-break byte (badstr_shape).
-   MISSING (shaped ty = false, nothing is claimed): Ident, CustomPropertyName, Function, AtKeyword, Hash, Dimension
-   (its unit is a name), URL, BadURL. *)
+   Ident: the name diagram ident_text (optional "-", a name-start byte or escape, then name bytes and escapes, every
+   escape followed inside the token by a byte it tolerates); CustomPropertyName: "--" and a name body (custom_text);
+   Function: an ident_text that is not "url" followed by "(" (func_shape); AtKeyword: "@" and an ident_text or
+   custom_text (at_shape); Hash: "#" and a non-empty name body (hash_shape); Dimension: num_text followed by an
+   ident_text or custom_text (dim_shape).
+   MISSING (shaped ty = false, nothing is claimed): URL, BadURL. *)
 Theorem css_tokens_shaped : forall d toks ty b, css_lex d = LexDone toks -> In (ty, b) toks ->
   shaped ty = true -> tok_shape ty b.
 Proof. exact css_tokens_shaped_proof. Qed.
